@@ -120,6 +120,45 @@ pub fn impl_answer(case: &Case) -> String {
                 Ok(Ok(ast)) => format!("(ast {})", expr_to_sx(&ast).to_text()),
             }
         }
+        "serde" => {
+            let data = crate::anyser::Any::from_sx(&payload[0]).expect("bad data");
+            let r = quietly(|| {
+                catch_unwind(AssertUnwindSafe(|| {
+                    let v = cel_interpreter::to_value(&data);
+                    let vtxt = match &v {
+                        Ok(x) => format!("(ok {})", value_to_sx(x).to_text()),
+                        Err(cel_interpreter::SerializationError::InvalidKey(_)) => "(err invalid-key)".to_string(),
+                        Err(_) => "(err serde-error)".to_string(),
+                    };
+                    let jtxt = match &v {
+                        Ok(x) => match x.json() {
+                            Ok(j) => format!("(ok {})", crate::anyser::json_to_sx(&j).to_text()),
+                            Err(_) => "(jerr)".to_string(),
+                        },
+                        Err(_) => "-".to_string(),
+                    };
+                    let stxt = match serde_json::to_value(&data) {
+                        Ok(j) => format!("(ok {})", crate::anyser::json_to_sx(&j).to_text()),
+                        Err(_) => "(err)".to_string(),
+                    };
+                    format!("(serde {vtxt} {jtxt} {stxt})")
+                }))
+            });
+            r.unwrap_or_else(|_| "(panic)".to_string())
+        }
+        "json" => {
+            let v = sx_to_value(&payload[0]).expect("bad value");
+            let r = quietly(|| {
+                catch_unwind(AssertUnwindSafe(|| match v.json() {
+                    Ok(j) => {
+                        let back = cel_interpreter::to_value(&j).map(|x| value_to_sx(&x).to_text()).unwrap_or_else(|_| "(reimport-error)".into());
+                        format!("(json (ok {}) {back})", crate::anyser::json_to_sx(&j).to_text())
+                    }
+                    Err(_) => "(json (jerr) -)".to_string(),
+                }))
+            });
+            r.unwrap_or_else(|_| "(panic)".to_string())
+        }
         "cmp2" => {
             let a = sx_to_value(&payload[0]).expect("bad value");
             let b = sx_to_value(&payload[1]).expect("bad value");
